@@ -119,7 +119,36 @@ class Vec:
         return self.xs == other.xs
 
 
+class IdentityEq:
+    """equal only to itself: a deep copy is never equal to the original"""
+
+    def __init__(self, n):
+        self.n = n
+
+    def __repr__(self):
+        return f"IdentityEq({self.n!r})"
+
+
+class LossyCopy:
+    """__deepcopy__ returns a different value"""
+
+    def __init__(self, n):
+        self.n = n
+
+    def __eq__(self, other):
+        if not isinstance(other, LossyCopy):
+            return NotImplemented
+        return self.n == other.n
+
+    def __deepcopy__(self, memo):
+        return LossyCopy(self.n + 1)
+
+    def __repr__(self):
+        return f"LossyCopy({self.n!r})"
+
+
 __all__ = [
+    "IdentityEq", "LossyCopy",
     "Color", "Level", "Perm", "Outer", "Point", "FPoint", "Box", "APoint", "AFrozen",
     "PModel", "NT", "TNT", "Opaque", "Vec", "defaultdict", "inf",
 ]
